@@ -5,6 +5,13 @@ from .core import tlc_mc, trace_stage, cargo_build, hbin, SPEC, WORK
 
 NSH = 16  # shards
 
+WIRE_ASSUME = [
+    "TLC, the CommunityModules Json/IOUtils modules and the Python driver are trusted",
+    "the harness's dynamic Shape/Val <-> serde bridge calls exactly the serde method of each kind (hand-written, reviewed)",
+    "usize/isize are 64-bit on this host",
+    "bounded model checking covers only the stated constants; the real widths are bound through traces/vectors",
+]
+
 
 def tmpl(name, **kw):
     return open(os.path.join(SPEC, "mc", name + ".cfg.tmpl")).read() % kw
@@ -159,13 +166,124 @@ ACC_ASSUME = [
     "MAXRUN = 254 (the cobs crate's constant) in the frame decoder used by the model",
 ]
 
-# --------------------------------------------------------------------------- properties
-WIRE_ASSUME = [
-    "TLC, the CommunityModules Json/IOUtils modules and the Python driver are trusted",
-    "the harness's dynamic Shape/Val <-> serde bridge calls exactly the serde method of each kind (hand-written, reviewed)",
-    "usize/isize are 64-bit on this host",
-    "bounded model checking covers only the stated constants; the real widths are bound through traces/vectors",
+# --------------------------------------------------------------------------- framing: SerPipe / COBS / CRC (C05, C06, C07, C10, C20)
+def mc_serpipe(ctx):
+    for mr in ctx.pick([3], [2, 3, 4]):
+        tlc_mc(ctx, f"serpipe-MR{mr}", "MC_SerPipe",
+               tmpl("MC_SerPipe", MR=mr, Alphabet="{0,1,2}", MaxLen=ctx.pick(5, 7), MaxCap=ctx.pick(10, 13), Stacks='{"plain","cobs","crc","crc+cobs"}'),
+               workers=12, timeout=ctx.pick(600, 7200))
+
+
+def mc_cobsdec(ctx):
+    for mr in ctx.pick([3], [2, 3, 4]):
+        tlc_mc(ctx, f"cobsdec-MR{mr}", "MC_CobsDec", tmpl("MC_CobsDec", MR=mr, MaxLen=ctx.pick(7, 8)), workers=12)
+
+
+def mc_crc(ctx):
+    for alg, ml, mb, stride in ctx.pick([("smbus", 2, 8, 997), ("maxim", 2, 8, 997), ("xmodem", 2, 9, 1499)],
+                                        [("smbus", 2, 8, 61), ("maxim", 2, 8, 61), ("smbus", 3, 8, 997), ("xmodem", 2, 12, 499), ("sdlc", 2, 12, 499)]):
+        tlc_mc(ctx, f"crc-{alg}-{ml}", "MC_Crc", tmpl("MC_Crc", Alg=alg, MsgLen=ml, MaxBurst=mb, Stride=stride), workers=12, timeout=ctx.pick(600, 7200))
+
+
+def ser_trace(ctx):
+    cargo_build(ctx, "h_core")
+    n = ctx.pick(150, 2500)
+    cmds = [([hbin("h_core"), "ser", "--n", str(n), "--seed", str(ctx.seed * 1000 + i)], f"ser-{i}.ndjson") for i in range(NSH)]
+    return trace_stage(ctx, "ser", cmds, "Trace_Ser")
+
+
+def cobsde_trace(ctx):
+    cargo_build(ctx, "h_core")
+    n, exh = ctx.pick((40, 6), (600, 8))
+    cmds = [([hbin("h_core"), "cobs-de", "--n", str(n), "--exh", str(exh), "--seed", str(ctx.seed), "--shard", str(i), "--shards", str(NSH)], f"cobsde-{i}.ndjson")
+            for i in range(NSH)]
+    return trace_stage(ctx, "cobs-de", cmds, "Trace_Frame")
+
+
+def crcde_trace(ctx):
+    cargo_build(ctx, "h_core")
+    n = ctx.pick(7, 60)
+    cmds = [([hbin("h_core"), "crc-de", "--n", str(n), "--seed", str(ctx.seed * 100 + i)] + (["--deep", "1"] if ctx.tier == "thorough" and i % 4 == 0 else []), f"crcde-{i}.ndjson")
+            for i in range(NSH)]
+    return trace_stage(ctx, "crc-de", cmds, "Trace_Frame")
+
+
+def _want(mm):
+    w = mm["expected"].get("want") if isinstance(mm["expected"], dict) else None
+    return w if isinstance(w, dict) else {}
+
+
+def _tool_if_crcmodel(mm):
+    if "crcmodel" in mm.get("tags", []):
+        raise core.ToolError("the specification's model of a logged CRC algorithm does not reproduce its catalogue check value")
+
+
+def sel_c05(mm):
+    _tool_if_crcmodel(mm)
+    t = set(mm.get("tags", []))
+    return mm["stage"] == "ser" and bool(t & {"thr", "canary", "size", "panic", "crash"} or ("bytes" in t and _want(mm).get("sig") == "plain"))
+
+
+def sel_c06(mm):
+    t = set(mm.get("tags", []))
+    if mm["stage"] == "ser":
+        return _want(mm).get("sig") == "cobs" and bool(t & {"bytes", "thr", "panic"})
+    return mm["stage"] == "cobs-de" and _want(mm).get("fam") == "seq"
+
+
+def sel_c07(mm):
+    return mm["stage"] == "cobs-de" and _want(mm).get("fam") in ("exh", "mut", None)
+
+
+def sel_c10(mm):
+    _tool_if_crcmodel(mm)
+    t = set(mm.get("tags", []))
+    if mm["stage"] == "ser":
+        return _want(mm).get("sig") == "crc" and bool(t & {"bytes", "panic"})
+    return mm["stage"] == "crc-de"
+
+
+def sel_c20(mm):
+    _tool_if_crcmodel(mm)
+    t = set(mm.get("tags", []))
+    return mm["stage"] == "ser" and (bool(t & {"user"}) or (_want(mm).get("sig") in ("crc+cobs", "cobs", "crc") and bool(t & {"bytes", "thr", "panic"})))
+
+
+def run_c05(ctx):
+    mc_serpipe(ctx)
+    ser_trace(ctx)
+
+
+def run_c06(ctx):
+    mc_serpipe(ctx)
+    mc_cobsdec(ctx)
+    ser_trace(ctx)
+    cobsde_trace(ctx)
+
+
+def run_c07(ctx):
+    mc_cobsdec(ctx)
+    cobsde_trace(ctx)
+
+
+def run_c10(ctx):
+    mc_crc(ctx)
+    ser_trace(ctx)
+    crcde_trace(ctx)
+
+
+def run_c20(ctx):
+    mc_serpipe(ctx)
+    ser_trace(ctx)
+
+
+FRAME_ASSUME = WIRE_ASSUME + [
+    "MAXRUN = 254 in the functional COBS definition; the machine/function equivalence is model-checked on scaled MAXRUN (2..4)",
+    "CRC algorithm parameters are read from the crc crate's Algorithm structs and logged; the specification first re-derives each catalogue check value (a wrong CRC model is a tool error, not a violation)",
+    "out-of-bounds writes are observed by guard pages at the buffer edges and a 0xA5 canary inside the buffer",
 ]
+
+# --------------------------------------------------------------------------- properties
 
 
 def run_c01(ctx):
@@ -188,6 +306,21 @@ def run_c03(ctx):
 
 
 REGISTRY = {
+    "C05": dict(run=run_c05, select=sel_c05, assumptions=FRAME_ASSUME,
+                rule="serb events: one per (value, stack) with the outcome for every storage (slice flush against a guard page, heapless, "
+                     "growable, Extend, size counter) at every capacity 0..len+2 (short outputs) or around the boundaries (long outputs)"),
+    "C06": dict(run=run_c06, select=sel_c06, assumptions=FRAME_ASSUME,
+                rule="serb events with the COBS stack incl. values whose plain encodings have runs of 252..256, 506..510, 761..763 non-zero bytes; "
+                     "cobs_take events consuming sequences of 1..6 frames frame by frame, last sentinel present or not"),
+    "C07": dict(run=run_c07, select=sel_c07, assumptions=FRAME_ASSUME,
+                rule="cobs_take/cobs_from events: every byte string up to 6 (quick) / 8 (thorough) over {00,01,02,03,FF} x 7 target types; valid frames "
+                     "with 5 corruption classes at every position, every truncation, random bytes; buffers flush against guard pages"),
+    "C10": dict(run=run_c10, select=sel_c10, assumptions=FRAME_ASSUME,
+                rule="serb events with CRC stacks (13 catalogue algorithms, 5 storage widths); crc_deb batch events: per sampled frame the intact "
+                     "frame, every truncation, every single-bit flip, bursts (all patterns up to 8 bits, sampled to the width), checksum-only and random damage"),
+    "C20": dict(run=run_c20, select=sel_c20, assumptions=FRAME_ASSUME,
+                rule="serb events for stacks plain/COBS/CRC/CRC-inside-COBS over slice/heapless/growable storages; userflavor events: a recording user "
+                     "flavour with and without a block-write override, bare and under a CRC modifier"),
     "C08": dict(run=run_acc, select=sel_c08, assumptions=ACC_ASSUME,
                 rule="edges: every (buffered bytes, chunk) transition of MC_Acc's graphs (N<=4..6, alphabet {0,1,2,3}, chunks<=4) replayed on "
                      "the real CobsAccumulator<N> under 2 stale-content regimes x feed/feed_ref; streams: random streams of valid/corrupt/empty/"
